@@ -8,6 +8,7 @@ package resample
 // padded or truncated to exactly the requested count; anything else is handed on unchanged
 //@ func resampleEdgeCases(ls, totalPoints) (out, ret)
 //@   requires totalPoints >= 1 && totalPoints <= 1073741824
+//@   modifies ls[len(ls):cap(ls)]
 //@   ensures len(ls) <= 1 ==> ret && same(out, ls)
 //@   ensures !ret ==> same(out, ls) && len(ls) >= 2
 //@   ensures ret && len(ls) >= 2 ==> len(out) == totalPoints
@@ -15,6 +16,7 @@ package resample
 //@   ensures ret && len(ls) >= 2 ==> (forall k :: 0 <= k && k < len(out) ==> out[k][0] == old(ls[0][0]) && out[k][1] == old(ls[0][1]))
 //@   loop 1: invariant -1 <= rangeindex && rangeindex < len(ls) && equal && (forall k :: 0 <= k && k <= rangeindex ==> ls[k][0] == ls[0][0] && ls[k][1] == ls[0][1])
 //@   loop 2: invariant len(ls) >= 2 && len(ls) <= totalPoints && ls[0][0] == old(ls[0][0]) && ls[0][1] == old(ls[0][1]) && (forall k :: 0 <= k && k < len(ls) ==> ls[k][0] == old(ls[0][0]) && ls[k][1] == old(ls[0][1]))
+//@   loop 2: invariant len(ls) >= old(len(ls)) && (fresh(ls) || (ls.ref == old(ls.ref) && ls.off == old(ls.off) && cap(ls) == old(cap(ls))))
 //@   loop 2: decreases totalPoints - len(ls)
 
 // one distance per segment, dists[k] == df(ls[k], ls[k+1]) (that the total is their left fold needs a
